@@ -321,6 +321,13 @@ func report(id string, cfg *PropConfig, w *World, reps []*FuncReport, tier strin
 		path := writeReplay(id, o, failedRep[o], verif, repo, cfg, doReplay)
 		violationLines = append(violationLines, path)
 	}
+	// an OPEN known finding whose obligation no longer fails is stale -- or the hypotheses have become
+	// inconsistent (every open finding doubles as a must-fail canary): never a silent pass
+	for _, k := range kfs {
+		if k.Status == "open" && k.Property == id && !seenKnown[k.Obligation] {
+			undecided = append(undecided, "open known finding no longer reproduces (stale entry, or inconsistent hypotheses): "+k.Obligation)
+		}
+	}
 	exit := 0
 	if len(undecided) > 0 || len(vacuity) > 0 || total == 0 {
 		exit = 2
